@@ -67,12 +67,12 @@ def showASeq (s : ASeq) : String := s!"{s.start} {showSeq s.seq} {showAnnot s.an
 
 def showErr (e : Err) : String := "ERR:" ++ e.toString
 
-/-- Python's `sorted` is stable over the (unobservable) set iteration order, so reading or
-writing through a feature with two locations of equal sort key is not modelled. -/
+/-- Two different locations on the same span: only then does a WRITE through the feature still depend on
+the (unobservable) set iteration order; not modelled. -/
 def hasTies (ls : List Loc) : Bool :=
   let rec go : List Loc → Bool
     | [] => false
-    | l :: r => r.any (fun l' => (l'.first == l.first || l'.last == l.last) && l' != l) || go r
+    | l :: r => r.any (fun l' => l'.first == l.first && l'.last == l.last && l' != l) || go r
   go ls
 
 /-! ### state: heap, current object, optional copy -/
@@ -128,7 +128,6 @@ def step (st : St) (line : String) : St × String :=
   | ["getf", f] =>
     match st.get false, parseFeature f with
     | some (_, s), some f =>
-      if hasTies f.locs then (st, "unmodelled") else
       match getFeature s f with
       | .ok r => (st, "ok " ++ showSeq r)
       | .error e => (st, showErr e)
@@ -136,7 +135,6 @@ def step (st : St) (line : String) : St × String :=
   | ["keepf", f] =>
     match st.get false, parseFeature f with
     | some (_, s), some f =>
-      if hasTies f.locs then (st, "unmodelled") else
       match getFeature s f with
       | .ok r => ({ st with kept := r }, "ok " ++ showSeq r)
       | .error e => (st, showErr e)
@@ -176,6 +174,14 @@ def step (st : St) (line : String) : St × String :=
       | .ok s' => ({ st with heap := st.heap.writeSeq o s'.seq }, "ok")
       | .error e => (st, showErr e)
     | _, _, _ => (st, "bad-op")
+  | ["mkloc", f, l] =>
+    match f.toInt?, l.toInt? with
+    | some f, some l =>
+      match mkLoc f l .fwd Defect.none with
+      | .ok _ => (st, "ok")
+      | .error e => (st, showErr e)
+    | _, _ => (st, "bad-op")
+  | ["mkfeat0"] => (st, showErr .valueError)     -- `Feature.__init__`: `len(locs) == 0` raises
   | ["addfeat", f] =>
     match st.get false, parseFeature f with
     | some (o, s), some f => ({ st with heap := st.heap.writeAnnot o (annotAdd s.annot f) }, "ok")
